@@ -54,6 +54,15 @@ def bump(xs: array[int, 2]) -> None:
 @guppy
 def total(xs: array[int, 2] @owned) -> int:
     return xs[0] * 10 + xs[1]
+
+@guppy.struct
+class W:
+    xs: array[int, 2]
+    k: int
+
+@guppy
+def bump_w(w: W) -> None:
+    w.xs[0] = w.xs[0] + w.k
 '''
 
 # container / call shapes: (name, params, return type, body lines)
@@ -76,6 +85,11 @@ SHAPES = [
     ("call-guppy-swapped", "a: int, b: int", "int", ["return sub2(b, a) + sub2(a, 1)"]),
     ("call-borrow-mutates", "a: int, b: int", "int", ["xs = array(a, b)", "bump(xs)", "bump(xs)", "return total(xs)"]),
     ("call-owned", "a: int, b: int", "int", ["xs = array(b, a)", "return total(xs)"]),
+    # the lent value is built from Python CONSTANTS (plain Python values as leaves, not traced objects)
+    ("call-borrow-mutates-const-array", "a: int, b: int", "int", ["xs = array(1, 2)", "bump(xs)", "bump(xs)", "return xs[0] * 10 + xs[1] + a"]),
+    ("call-borrow-mutates-mixed-array", "a: int, b: int", "int", ["xs = array(a, 2)", "bump(xs)", "return xs[0] * 10 + xs[1]"]),
+    ("call-borrow-mutates-struct-const", "a: int, b: int", "int", ["w = W(array(1, 2), 3)", "bump_w(w)", "bump_w(w)", "return w.xs[0] * 10 + w.k + a"]),
+    ("call-borrow-mutates-nested-const", "a: int, b: int", "int", ["xss = array(array(1, 2), array(3, 4))", "bump(xss[1])", "return xss[1][0] + xss[0][1] + b"]),
     ("builtin-int-of-float", "a: float, b: int", "int", ["return int(a) + b"]),
     ("builtin-float-of-int", "a: int, b: int", "float", ["return float(a) / 4.0"]),
     ("builtin-abs", "a: int, b: int", "int", ["return abs(a) - b"]),
